@@ -44,7 +44,7 @@ TOL32, TOL64 = 2e-5, 1e-12
 
 def plan(tier, seed):
     q = tier == "quick"
-    n = {"insitu": 126 if q else 560, "dip": 200 if q else 2000, "obj": 3000 if q else 30000, "tomo": 200 if q else 2000, "orth": 1200 if q else 12000, "weights": 600 if q else 6000}
+    n = {"insitu": 126 if q else 1120, "dip": 200 if q else 4000, "obj": 3000 if q else 90000, "tomo": 200 if q else 6000, "orth": 1200 if q else 36000, "weights": 600 if q else 18000}
     rest = []
     for kind in ("obj", "dip", "tomo", "orth", "weights"):
         rest += [{"kind": kind, "i": i} for i in range(n[kind])]
